@@ -156,7 +156,9 @@ def conclude(prop, tier, seed, results, wall, reg):
     # (a path that vanished, a plan that shrank) is a checker problem (exit 3), never a pass.
     lock = load_lock()
     missing = []
-    have = {lock_name(o["name"]) for _, o in obligations if lockable(o)}
+    # (dependency units of the callee closure are discovered from their callers' results: when a
+    # caller is undecided they are legitimately absent, so they are not locked)
+    have = {lock_name(o["name"]) for r_, o in obligations if lockable(o) and not r_.get("dependency")}
     if os.environ.get("VERIF_WRITE_LOCK"):
         keep = []
         if os.path.exists(LOCK):
